@@ -45,8 +45,9 @@ RULE = ("L1 (differential CLI runs): regenerable scenarios (kind, seed) -> input
         "header), unmapped / secondary / duplicate / supplementary alignments, optionally a second family, the alignments also "
         "split over two BAM files, and option-walking jobs (sample and chromosome subsets in any order, --ignore-read-groups, "
         "algorithms, --tag, --merge-reads, --genmap, compressed output, a phased VCF as input, --regions, --prioroutput, ...). "
-        "A crash (traceback / signal) of any job is reported as a violation <subcommand>:crash:<exception>; clean rejections "
-        "are tallied. Targeted inputs for the order dependences suspected from reading (F7): "
+        "A job that fails identically (exit status, exception, innermost whatshap function) in every repetition and "
+        "configuration is tallied (jobs_failed_identically, listed in extra); runs that differ in exit status, exception or "
+        "output are a violation. Targeted inputs for the order dependences suspected from reading (F7): "
         "'shared-barcode' (two samples sharing a BX barcode), 'linked-stress' (read clouds whose phase set is a tie), "
         "'undeclared-info' (INFO keys missing from the VCF header), 'ped-coverage' (trio and quartet with ~110 noisy reads per "
         "sample with mixed base qualities; genotype --ped --max-coverage and phase --ped --internal-downsampling swept over "
@@ -141,7 +142,12 @@ def run_one(ctx, job, cfg, outdir):
         except Exception as e:          # missing / unreadable output: part of the observable result
             outs[lab] = [f"<unreadable output: {type(e).__name__}>"]
     shutil.rmtree(outdir, ignore_errors=True)
-    return rc, outs, se[-2500:]
+    return rc, outs, se[-2500:], (crash_class(rc, se) if rc else None)
+
+
+def rkey(r, label):
+    """what must be identical between two runs of a job: exit status, kind of failure, the output records"""
+    return (r[0], r[3], r[1][label])
 
 
 def crash_class(rc, stderr):
@@ -192,15 +198,14 @@ def same_cfg(a, b):
 def attribute(ctx, job, cfgs, results, label, work):
     """Which configuration dimension separates a differing run from the baseline? Uses the runs at hand
     and, if seed and thread count changed together, two extra runs."""
-    base_cfg, (brc, bouts, _) = cfgs[0], results[0]
-    differing = [i for i in range(1, len(cfgs)) if (results[i][0], results[i][1][label]) != (brc, bouts[label])]
+    base_cfg, base = cfgs[0], rkey(results[0], label)
+    differing = [i for i in range(1, len(cfgs)) if rkey(results[i], label) != base]
     for i in differing:
         if same_cfg(cfgs[i], base_cfg):
             return "repeat", i
     # rerun the baseline twice more: an unstable baseline is a repetition failure whatever else differs
     for k in range(2):
-        rc, outs, _ = run_one(ctx, job, base_cfg, os.path.join(work, f"attr-base{k}"))
-        if (rc, outs[label]) != (brc, bouts[label]):
+        if rkey(run_one(ctx, job, base_cfg, os.path.join(work, f"attr-base{k}")), label) != base:
             return "repeat", differing[0]
     i = differing[0]
     tdim = [d for d in job.dims if cfgs[i].get(d) != base_cfg.get(d)]
@@ -209,12 +214,10 @@ def attribute(ctx, job, cfgs, results, label, work):
     if cfgs[i]["hashseed"] == base_cfg["hashseed"]:
         return tdim[0].replace("_", "-"), i
     only_seed = dict(base_cfg, hashseed=cfgs[i]["hashseed"])
-    rc, outs, _ = run_one(ctx, job, only_seed, os.path.join(work, "attr-seed"))
-    if (rc, outs[label]) != (brc, bouts[label]):
+    if rkey(run_one(ctx, job, only_seed, os.path.join(work, "attr-seed")), label) != base:
         return "hashseed", i
     only_thr = dict(cfgs[i], hashseed=base_cfg["hashseed"])
-    rc, outs, _ = run_one(ctx, job, only_thr, os.path.join(work, "attr-thr"))
-    if (rc, outs[label]) != (brc, bouts[label]):
+    if rkey(run_one(ctx, job, only_thr, os.path.join(work, "attr-thr")), label) != base:
         return tdim[0].replace("_", "-"), i
     return "hashseed+" + tdim[0].replace("_", "-"), i
 
@@ -325,21 +328,24 @@ def differential(ctx, plan, only_job=None, cfg_override=None, label="run"):
             ctx.tally(f"{label}.runs.{job.sub}", len(cfgs))
             tally_job(ctx, label, job, cfgs)
             if any(rcs):
+                # C16 crash policy: a job that fails in the SAME way (exit status, exception, innermost whatshap
+                # function) in every repetition and configuration does not contradict "two runs give identical
+                # results" -> tallied; any difference between the runs is caught by the comparison below.
                 ctx.tally(f"{label}.jobs_with_nonzero_exit")
+                kinds = {(r[0], r[3]) for r in results}
                 ci = [i for i, r in enumerate(rcs) if r][0]
-                exc = crash_class(rcs[ci], results[ci][2])
-                if exc is None:     # a clean rejection of the input (CommandLineError / argparse): malformed stream
+                if len(kinds) == 1 and results[ci][3] is None:
                     ctx.tally(f"{label}.jobs_rejected.{job.sub}")
                     ctx.log(f"note: {kind}/{seed}/{job.name} rejected, exit codes {rcs}: {results[ci][2][-200:]!r}")
-                else:               # a crash on a well-formed input is reported, whatever the configuration
-                    ctx.violation(f"{job.sub}:crash:{exc}",
-                                  f"{job.sub} ({job.name}) crashed ({exc}, exit codes {rcs} under configs {cfgs}) on a well-formed "
-                                  f"input: scenario {kind} seed {seed} params {params}; argv: whatshap "
-                                  f"{' '.join(job.argv('OUT', cfgs[ci]))}; stderr tail: {results[ci][2][-500:]!r}",
-                                  {"kind": "cli", "scenario": [kind, seed, params], "job": job.name, "output": None,
-                                   "configs": [cfgs[ci]]})
+                elif len(kinds) == 1:
+                    key = f"{job.sub}:{results[ci][3]}"
+                    ctx.tally(f"{label}.jobs_failed_identically.{key}")
+                    lst = ctx.extra.setdefault("jobs_failed_identically", [])
+                    if key not in [x["failure"] for x in lst]:
+                        lst.append({"failure": key, "example": f"whatshap {' '.join(job.argv('OUT', cfgs[ci]))}",
+                                    "scenario": [kind, seed, params], "stderr_tail": results[ci][2][-300:]})
             for lab, (rel, okind) in job.outputs.items():
-                runs = [[r[0]] + [J.digest(x) for x in r[1][lab]] for r in results]
+                runs = [[r[0], J.digest(r[3] or "ok")] + [J.digest(x) for x in r[1][lab]] for r in results]
                 cases.append(term(runs))
                 data_records = [x for x in results[0][1][lab] if not J.is_header(okind, x)]
                 nontrivial = not any(rcs) and len(data_records) > 0
@@ -356,14 +362,14 @@ def differential(ctx, plan, only_job=None, cfg_override=None, label="run"):
     bad = set(failing["L1"])
     attr_cache = {}
     for idx, (si, job, cfgs, results, lab, okind) in enumerate(meta):
-        pydiff = any((r[0], r[1][lab]) != (results[0][0], results[0][1][lab]) for r in results[1:])
+        pydiff = any(rkey(r, lab) != rkey(results[0], lab) for r in results[1:])
         if pydiff != (idx in bad):
             raise RuntimeError(f"harness bug: python and Coq disagree on whether the runs of {job.name}/{lab} agree")
         if idx not in bad:
             continue
         kind, seed, params, d, _ = scns[si]
         cached = attr_cache.get((si, job.name))
-        if cached and (results[cached[1]][0], results[cached[1]][1][lab]) != (results[0][0], results[0][1][lab]):
+        if cached and rkey(results[cached[1]], lab) != rkey(results[0], lab):
             dim, i = cached        # same differing run as for another output of this job
         else:
             dim, i = attribute(ctx, job, cfgs, results, lab, os.path.join(d, "out", job.name, "attr-" + lab))
@@ -371,6 +377,8 @@ def differential(ctx, plan, only_job=None, cfg_override=None, label="run"):
         a, b = results[0][1][lab], results[i][1][lab]
         if results[0][0] != results[i][0]:
             diff = "exit-status"
+        elif results[0][3] != results[i][3]:
+            diff = "exception"
         else:
             diff = J.classify_diff(okind, a, b)
         sig = signature(job, lab, okind, diff, dim, a, b)
